@@ -56,6 +56,21 @@ def open_msg(asn, hold, bgp_id=0x0a000002, caps=('mp', 'rr', 'as4'), version=4, 
     return frame(OPEN, body)
 
 
+def open_msg2(as2, as4, hold, bgp_id=0x0a000002, caps=('mp', 'rr'), version=4, one_param_each=True):
+    """OPEN with the 2-octet My-AS field and the 4-octet-AS capability value chosen independently (as4 None: no capability 65)."""
+    cl = [cap_as4(as4) if c == 'as4' else CAP_BYTES[c](0) for c in caps if c != 'as4' or as4 is not None]
+    if as4 is not None and 'as4' not in caps:
+        cl.append(cap_as4(as4))
+    params = b''
+    if one_param_each:
+        for v in cl:
+            params += struct.pack('!BB', 2, len(v)) + v
+    elif cl:
+        v = b''.join(cl)
+        params = struct.pack('!BB', 2, len(v)) + v
+    return frame(OPEN, struct.pack('!BHHIB', version, as2, hold, bgp_id, len(params)) + params)
+
+
 def keepalive():
     return frame(KEEPALIVE)
 
